@@ -61,8 +61,8 @@ Definition ts_lex (s : list N) : option ts_comps :=
   match s with
   | y1 :: y2 :: y3 :: y4 :: da1 :: m1 :: m2 :: da2 :: d1 :: d2 :: sep ::
     h1 :: h2 :: co1 :: mi1 :: mi2 :: co2 :: s1 :: s2 :: rest =>
-      if negb ((da1 =? 45) && (da2 =? 45) && (co1 =? 58) && (co2 =? 58)
-               && ((sep =? 84) || (sep =? 116) || (sep =? 32)))%N then None else
+      (* the date/time separator is ANY single byte (time: "RFC3339 allows any separator") *)
+      if negb ((da1 =? 45) && (da2 =? 45) && (co1 =? 58) && (co2 =? 58))%N then None else
       match ts_dig4 y1 y2 y3 y4, ts_dig2 m1 m2, ts_dig2 d1 d2, ts_dig2 h1 h2, ts_dig2 mi1 mi2, ts_dig2 s1 s2,
             ts_lex_tail rest with
       | Some y, Some m, Some d, Some hh, Some mi, Some ss, Some (off, oh, om) =>
